@@ -11,7 +11,7 @@ from vt.pyvc.termvc import Arr, lift, uf
 
 R = z3.RealSort()
 B = z3.BoolSort()
-TOQITO_RET = {"state_distinguishability": (R, Arr), "state_exclusion": (R, Arr), "is_positive_semidefinite": B, "is_hermitian": B, "is_identity": B, "is_herm_preserving": B, "is_completely_positive": B, "is_trace_preserving": B, "kraus_to_choi": Arr, "completely_bounded_trace_norm": R, "dual_channel": Arr, "trace_norm": R, "fidelity": R, "partial_transpose": Arr, "to_density_matrix": Arr, "is_ppt": z3.BoolSort(), "hilbert_schmidt_inner_product": R, "partial_trace": Arr, "purity": R}
+TOQITO_RET = {"pretty_good_measurement": (Arr, Arr, Arr), "state_distinguishability": (R, Arr), "state_exclusion": (R, Arr), "is_positive_semidefinite": B, "is_hermitian": B, "is_identity": B, "is_herm_preserving": B, "is_completely_positive": B, "is_trace_preserving": B, "kraus_to_choi": Arr, "completely_bounded_trace_norm": R, "dual_channel": Arr, "trace_norm": R, "fidelity": R, "partial_transpose": Arr, "to_density_matrix": Arr, "is_ppt": z3.BoolSort(), "hilbert_schmidt_inner_product": R, "partial_trace": Arr, "purity": R}
 
 
 def pred(text, env):
@@ -34,11 +34,18 @@ class TermContract:
                 env[name] = z3.Const(name, Arr)
             elif kind == "real":
                 env[name] = z3.Real(name)
+            elif isinstance(kind, str) and kind.startswith("arrlist"):
+                env[name] = [z3.Const("%s_%d" % (name, i), Arr) for i in range(int(kind[7:]))]
+            elif isinstance(kind, str) and kind.startswith("reallist"):
+                env[name] = [z3.Real("%s_%d" % (name, i)) for i in range(int(kind[8:]))]
             else:
                 env[name] = kind  # a concrete default value
         self.env0 = dict(env)
         pc = []
         for t in self.requires:
+            if callable(t):  # a precondition given directly as a formula over the inputs
+                pc.append(t(env))
+                continue
             if t.startswith("never "):
                 # the condition is false whatever term the named variables hold at that point (they may have been re-assigned by then)
                 body = pred(t[6:], env)
@@ -98,6 +105,16 @@ class TermContract:
             exp = self.spec(self.env0)
         except Exception as e:
             return [("spec could not be built: %s" % e, False)]
+        if isinstance(exp, (list, tuple)):
+            if not isinstance(value, (list, tuple)) or len(value) != len(exp):
+                return [("result is a list of %d elements" % len(exp), False)]
+            out = []
+            for k, (v_, e_) in enumerate(zip(value, exp)):
+                v_ = lift(v_)
+                if not z3.is_expr(v_) or v_.sort() != e_.sort():
+                    return [("element %d of the result has the sort of the specification" % k, False)]
+                out.append(("%s [element %d]" % (self.text, k), v_ == e_))
+            return out
         if not z3.is_expr(lift(value)):
             return [("result is a term", False)]
         v = lift(value)
@@ -139,6 +156,17 @@ def isclose(a, b, rtol=1e-05, atol=1e-08):
 
 def ones_list(n):
     return uf("list-repeat[[1]]", Arr, n)
+
+
+def smul(c, a):
+    return uf("mul", Arr, c, a)
+
+
+def add3(xs):
+    acc = xs[0]
+    for x in xs[1:]:
+        acc = uf("add", Arr, acc, x)
+    return acc
 
 
 def allclose(a, b, rtol, atol):
@@ -273,5 +301,17 @@ CONTRACTS = {
     "log_negativity": ("toqito/state_props/log_negativity.py", [("rho", "arr"), ("dim", "arr")], ["not dim is None", "isinstance(dim, list)", "never isinstance(dim, int)", "never np.prod(dim) != rho_dims[0]"],
                        lambda e: uf("np.log2", R, uf("np.linalg.norm[ord='nuc']", R, tq("partial_transpose", Arr, consts=["sys=[1]"], rho=tq("to_density_matrix", Arr, input_array=e["rho"]), dim=uf("map[int(x.item()) for x]", Arr, uf("np.array", Arr, e["dim"]))))),
                        "log_negativity(rho, dim) == log2 of the trace norm of the partial transpose over the second subsystem"),
+    "pretty_good_measurement": ("toqito/measurements/pretty_good_measurement.py", [("states", "arrlist3"), ("probs", "reallist3")], ["not probs is None", lambda e: isclose(e["probs"][0] + e["probs"][1] + e["probs"][2], 1)],
+                                lambda e: (lambda rho, R_: [mm(mm(R_, smul(e["probs"][i], rho[i])), R_) for i in range(3)])(
+                                    [tq("to_density_matrix", Arr, input_array=s_) for s_ in e["states"]],
+                                    uf("scipy.linalg.fractional_matrix_power[-0.5]", Arr, add3([smul(e["probs"][i], tq("to_density_matrix", Arr, input_array=e["states"][i])) for i in range(3)]))),
+                                "pretty_good_measurement(states, probs)[i] == P^(-1/2) (p_i rho_i) P^(-1/2) with P = sum_i p_i rho_i and rho_i = to_density_matrix(states[i])  (3 states)"),
+    "pretty_bad_measurement": ("toqito/measurements/pretty_bad_measurement.py", [("states", "arrlist3"), ("probs", "reallist3")], ["not probs is None", lambda e: isclose(e["probs"][0] + e["probs"][1] + e["probs"][2], 1)],
+                               lambda e: (lambda G: [smul(z3.RealVal("1/2"), sub(uf("np.identity", Arr, uf("shape[0]", R, G[0])), G[i])) for i in range(3)])(
+                                   [uf("toqito.pretty_good_measurement(probs:list3,states:list3)#%d" % i, Arr, *(list(e["probs"]) + list(e["states"]))) for i in range(3)]),
+                               "pretty_bad_measurement(states, probs)[i] == (I - G_i) / (n - 1) with G = pretty_good_measurement(states, probs)  (3 states)"),
+    "measure": ("toqito/measurement_ops/measure.py", [("state", "arr"), ("measurement", "arr"), ("tol", "real"), ("state_update", True)], ["is_density(state)", "not isinstance(measurement, (list, tuple))"],
+                lambda e: (lambda res: (lambda pr: (pr, z3.If(pr > e["tol"], uf("div", Arr, res, pr), uf("np.zeros_like", Arr, e["state"]))))(uf("np.trace", R, res)))(mm(mm(e["measurement"], e["state"]), dag(e["measurement"]))),
+                "measure(rho, K, tol, state_update=True) == (p, K rho K^dagger / p if p > tol else 0) with p = Tr(K rho K^dagger)  (single-operator form; Born rule and Lueders update)"),
     "purity": ("toqito/state_props/purity.py", [("rho", "arr")], ["is_density(rho)"], lambda e: uf("np.real", R, tr(uf("np.linalg.matrix_power[2]", Arr, e["rho"]))), "purity == Re Tr(rho^2)"),
 }
